@@ -3,7 +3,9 @@ CONSTANTS
   Root = "koordinator-root-quota"
   Dims = {"cpu", "memory"}
   CheckFigures = TRUE
-INVARIANT NonNegative
-INVARIANT UsedWithinRequest
+\* property invariants are listed as CONSTRAINTs (before Report): a recorded state that violates one is not
+\* explored further, so its segment never reaches SegDone (= rejected) while TLC goes on with the other segments
+CONSTRAINT NonNegative
+CONSTRAINT UsedWithinRequest
 CONSTRAINT Report
 CHECK_DEADLOCK FALSE
